@@ -253,10 +253,17 @@ def call_watched(fn_name, desc, arrays, kw, backend=None):
     args = [a.view(Watched) if isinstance(a, np.ndarray) else a for a in arrays]
     Watched.count = 0
     kw = dict(kw)
-    if backend:
+    import contextlib
+    block = contextlib.nullcontext()
+    if backend == "WITH:3":
+        # an argument that is neither a backend, nor a name, nor None - while a with-block is open
+        kw["backend"] = 3
+        block = einx.backend.get("numpy")
+    elif backend:
         kw["backend"] = backend
     try:
-        r = common.with_alarm(30, fn, desc, *args, **kw)
+        with block:
+            r = common.with_alarm(30, fn, desc, *args, **kw)
         return {"outcome": "value", "computations": Watched.count}
     except BaseException as e:  # noqa: BLE001
         msg = str(e)
@@ -329,6 +336,10 @@ def run(ctx):
                       ("sum", "[b...]...", (2, 3)), ("sum", "a [[b...]...]", (4, 2, 3)), ("softmax", "[b...]... c", (2, 3, 4))]:
         arrs = [np.zeros(sh)] if sh else [np.zeros((2, 3)), np.zeros((4, 2), dtype=np.int64)]
         items.append(("derived_text", fn, d, arrs, {}, False, None))
+    # a backend argument of the wrong type is refused, with or without an open with-block
+    for _ in range(4 if ctx.tier == "quick" else 60):
+        c = gencalls.gen_call(ctx.rng)
+        items.append(("bad_backend_argument", c.op, c.desc, [np.array(a) for a in c.arrays], dict(c.size_kwargs(), **c.extra_kwargs), True, ctx.rng.choice([3, "WITH:3"])))
     # expressions nested far deeper than any program writes them: rejected or computed, never an internal error
     for depth in (120, 400, 1000, 3000):
         flat = "(" * depth + "a" + ")" * depth
